@@ -4,7 +4,9 @@
   ENTRIES   [dict(py=, name=, lean=, params=, ret=, ...)]   -- as in translate_src.GROUPS
   IMPORTS   ['MV.Model.Xyz', ...]         -- Lean imports of the generated file (besides MV.Model.Py / MV.Model.Pitch)
   PRELUDE   [lean source lines]           -- optional, emitted before the translated definitions
-  extend_spec(sp)                         -- optional: extra attrs / methods / ctors / subscripts bindings on the shared Spec
+  extend_spec(sp)                         -- optional: extra attrs / methods / ctors / subscripts bindings.  `sp` is the group's own
+                                             copy of the Spec as the built-in groups left it (translate_src.make): bindings and translated
+                                             functions of a plug-in are not seen by the other groups (py2lean.UNIONS alone is global)
   TIE       dict(gen=[...], modules=['MV.Props.TieXyz'], kernels=[...], driver='SrcXyz')   -- as in srctie.GROUPS
   cases(rng, kernel, n)                   -- kernel-level inputs: list of (request tail, impl string, jsonable input, buckets)
 """
